@@ -121,6 +121,7 @@ class Chip:
         self.ce_trace = []  # (now, level)
         self.rpd = 0
         self.carrier = False
+        self.role_change_ce_high = []  # times at which PRIM_RX was toggled while CE was high
 
     # ------------------------------------------------------------------ derived values
     def status(self):
@@ -225,7 +226,7 @@ class Chip:
         elif cmd < 0x40:  # W_REGISTER
             r = cmd & 0x1F
             if n == 0:
-                self.illegal.append((self.sim.now, "W_REGISTER 0x%02X without data" % r))
+                pass  # a write command without data bytes changes nothing
             elif r in self.areg:
                 if n > 5:
                     self.illegal.append((self.sim.now, "address register 0x%02X written with %d bytes" % (r, n)))
@@ -244,6 +245,7 @@ class Chip:
                     self.illegal.append((self.sim.now, "write to read-only register 0x%02X" % r))
             elif r in REG_1B:
                 val = data[0]
+                old_val = self.reg[r]
                 mask = REG_1B[r][1]
                 if n > 1:
                     self.illegal.append((self.sim.now, "register 0x%02X written with %d bytes" % (r, n)))
@@ -261,6 +263,8 @@ class Chip:
                     self.plos = 0
                     self._lose_lock()
                 if r == 0:
+                    if (val ^ old_val) & 1 and self.ce:
+                        self.role_change_ce_high.append(self.sim.now)
                     self._config_written()
                 if r in (1, 2, 3, 6, 0x1C, 0x1D) or 0x0C <= r <= 0x16:
                     self._lose_lock()
